@@ -1025,7 +1025,7 @@ EXEC = {'split': exec_split, 'block': exec_block, 'list': exec_list, 'coo': exec
 GEN = {'split': gen_split, 'block': gen_block, 'list': gen_list, 'coo': gen_coo, 'bmat': gen_bmat, 'cb': gen_cb,
        'law': gen_law}
 COUNTS = {'quick': {'split': 170, 'block': 90, 'list': 70, 'coo': 150, 'bmat': 60, 'cb': 70, 'law': 90},
-          'thorough': {'split': 3000, 'block': 1500, 'list': 1000, 'coo': 2500, 'bmat': 600, 'cb': 1200, 'law': 1500}}
+          'thorough': {'split': 7000, 'block': 3500, 'list': 2500, 'coo': 6000, 'bmat': 1200, 'cb': 3000, 'law': 3500}}
 
 
 def execute(rec):
